@@ -990,12 +990,12 @@ impl World {
         let res = match res {
             Ok(r) => r,
             Err(p) => {
-                out.violations.push(Violation::new(
+                violate!(
+                    prop.owns_serial(),
                     "panic",
-                    &format!("{ptag}/panic/{ctxk}/{}", panic_site(&p)),
-                    format!("{} panicked on a stale handle: {p}", op.kind()),
-                    case.clone(),
-                ));
+                    format!("{ptag}/panic/{ctxk}/{}", panic_site(&p)),
+                    format!("{} panicked on a stale handle: {p}", op.kind())
+                );
                 self.dead = true;
                 out.outcome = "panic".into();
                 return out;
@@ -1006,12 +1006,12 @@ impl World {
         let fresh = match env.open(URI).await {
             Ok(d) => d,
             Err(e) => {
-                out.violations.push(Violation::new(
+                violate!(
+                    prop.owns_serial(),
                     "open",
-                    &keyf("unreadable"),
-                    format!("table cannot be opened after {kindsj}: {e}"),
-                    case.clone(),
-                ));
+                    keyf("unreadable"),
+                    format!("table cannot be opened after {kindsj}: {e}")
+                );
                 self.dead = true;
                 out.outcome = "unreadable".into();
                 return out;
@@ -1020,12 +1020,12 @@ impl World {
         let mut obs = match observe(&fresh, false).await {
             Ok(o) => o,
             Err(e) => {
-                out.violations.push(Violation::new(
+                violate!(
+                    prop.owns_serial(),
                     "scan",
-                    &keyf("unscannable"),
-                    format!("latest version cannot be read after {kindsj}: {e}"),
-                    case.clone(),
-                ));
+                    keyf("unscannable"),
+                    format!("latest version cannot be read after {kindsj}: {e}")
+                );
                 self.dead = true;
                 out.outcome = "unscannable".into();
                 return out;
@@ -1256,39 +1256,66 @@ impl World {
                     k.dedup();
                     k
                 };
-                match log.iter().rev().find(|l| l.index_op) {
-                    Some(l) => {
-                        let before = names(
-                            log.iter()
-                                .filter(|x| relevant(x) && x.commit_idx > l.read_idx && x.commit_idx < l.commit_idx)
-                                .collect(),
-                        );
-                        let after = names(
-                            log.iter()
-                                .filter(|x| relevant(x) && x.commit_idx > l.commit_idx && x.read_idx < l.commit_idx)
-                                .collect(),
-                        );
-                        let later = names(
+                let idx_ops: Vec<&LogEntry> = log.iter().filter(|l| l.index_op).collect();
+                if idx_ops.is_empty() {
+                    return format!("index-then-{}", names(log.iter().filter(|x| relevant(x)).collect()).join("+"));
+                }
+                // one descriptor per index commit of the history (what it raced with); an index
+                // commit that raced with nothing relevant only shows up as "optimize" / not at all
+                let mut parts: Vec<String> = vec![];
+                for (i, l) in idx_ops.iter().enumerate() {
+                    let last = i + 1 == idx_ops.len();
+                    let before = names(
+                        log.iter()
+                            .filter(|x| relevant(x) && x.commit_idx > l.read_idx && x.commit_idx < l.commit_idx)
+                            .collect(),
+                    );
+                    let after = names(
+                        log.iter()
+                            .filter(|x| relevant(x) && x.commit_idx > l.commit_idx && x.read_idx < l.commit_idx)
+                            .collect(),
+                    );
+                    let later = if last {
+                        names(
                             log.iter()
                                 .filter(|x| relevant(x) && x.commit_idx > l.commit_idx && x.read_idx >= l.commit_idx)
                                 .collect(),
-                        );
-                        let mut s = "index".to_string();
-                        if !before.is_empty() {
-                            s += &format!("-rebased-over-{}", before.join("+"));
-                        }
-                        if !after.is_empty() {
-                            s += &format!("-then-stale-{}", after.join("+"));
-                        }
-                        if !later.is_empty() {
-                            s += &format!("-then-{}", later.join("+"));
-                        }
-                        if before.is_empty() && after.is_empty() && later.is_empty() {
-                            s += "-alone";
-                        }
-                        s
+                        )
+                    } else {
+                        vec![]
+                    };
+                    // data ops the (first) index commit already saw: they matter when it extends an
+                    // older index (base index + optimize)
+                    let prior = if i == 0 {
+                        names(log.iter().filter(|x| relevant(x) && x.commit_idx <= l.read_idx).collect())
+                    } else {
+                        vec![]
+                    };
+                    if !prior.is_empty() {
+                        parts.push(format!("index-after-{}", prior.join("+")));
                     }
-                    None => format!("index-then-{}", names(log.iter().filter(|x| relevant(x)).collect()).join("+")),
+                    if before.is_empty() && after.is_empty() && later.is_empty() {
+                        if l.kind == "optimize_indices" && i > 0 {
+                            parts.push("optimize".to_string());
+                        }
+                        continue;
+                    }
+                    let mut s = "index".to_string();
+                    if !before.is_empty() {
+                        s += &format!("-rebased-over-{}", before.join("+"));
+                    }
+                    if !after.is_empty() {
+                        s += &format!("-then-stale-{}", after.join("+"));
+                    }
+                    if !later.is_empty() {
+                        s += &format!("-then-{}", later.join("+"));
+                    }
+                    parts.push(s);
+                }
+                if parts.is_empty() || parts.iter().all(|p| p == "optimize") {
+                    "index-alone".to_string()
+                } else {
+                    parts.join("+")
                 }
             };
             for (f, lit) in probes {
